@@ -42,6 +42,48 @@ def self_guard_ok(f, deliver, target_var, flag_pred):
     return True, '%d paths, each establishes (target != this) or the include-self flag' % len(paths)
 
 
+def match_recheck_rule(res, fx, rule='GUARD'):
+    cc = fx.fn1(SRS + '::NodePathMatcher::CheckChildForTraversal')
+    # ---- MATCH-RECHECK: with more than one pattern, clause-wise matching can accept a node that no single pattern matches ("conspiring" patterns); the shortcut that skips the
+    # full-path re-check (MatchesNode) must therefore establish that there is exactly ONE pattern, not merely one pattern depth
+    mn = [c for c in P.calls(cc, r'::MatchesNode$')]
+    if not mn:
+        raise AnalysisBroken('MATCH-RECHECK: MatchesNode() call not found in CheckChildForTraversal')
+    cbs = [c for c in P.calls(cc, r'::CallCallbackMethod$')]
+    bypass_ok = True
+    howb = None
+    mnp = P.pos_of(cc, mn[0])
+    mblk = mnp[0]
+    # conditions from which the callback is reachable without evaluating MatchesNode: collect the atoms on such a path
+    for cb in cbs[:1]:
+        paths, complete = C.paths_between(cc, (cc.entry, -1), P.pos_of(cc, cb), avoid_blocks=[mblk], limit=20000)
+        inner_count_seen = False
+        for blk in cc.blocks.values():
+            if blk.cond is None or blk.cond not in cc.nodes:
+                continue
+            cn = cc.nodes[blk.cond]
+            for x in cn.walk():
+                if x['k'] == 'CXXMemberCallExpr' and (x.get('q') or '').split('::')[-1] in ('GetNumItems', 'HasItems', 'IsEmpty') and x.receiver() is not None:
+                    rt = x.receiver().type()
+                    if 'PathMatcherEntry' in rt and 'Hashtable<unsigned int' not in rt and 'Hashtable<muscle::uint32' not in rt:
+                        # a test on a per-depth table String -> PathMatcherEntry
+                        if any(blk.cond in d for d in paths):
+                            inner_count_seen = True
+        outer = False
+        for d in paths:
+            for cid, t in d.items():
+                cn = cc.nodes.get(cid)
+                if cn is not None and any(x['k'] == 'CXXMemberCallExpr' and (x.get('q') or '').endswith('::GetNumItems') and x.receiver() is not None and 'GetEntries' in x.receiver().text() for x in cn.walk()):
+                    outer = True
+        if paths and not inner_count_seen:
+            bypass_ok = False
+            howb = 'the callback is reachable without MatchesNode() on %d path(s) that test only GetEntries().GetNumItems() (number of distinct pattern depths)' % len(paths)
+    res.ob(rule, cc.where(mn[0]), 'the shortcut around the full-path re-check MatchesNode() requires exactly one pattern (a test on the per-depth pattern table, not only on the number of depths)', bypass_ok,
+           how=howb, function=cc.q, key=rule + '|%s|match-recheck' % cc.q,
+           message='CheckChildForTraversal skips MatchesNode() whenever GetEntries().GetNumItems() == 1, which counts distinct pattern DEPTHS: two patterns of the same depth (j*/k*, k*/j*) are matched '
+                   'clause by clause and "conspire" to select jeremy/jenny, so the Message reaches a session that owns no matching node')
+
+
 def run(res, tier):
     fx = common.load_units(res, ['reflector/StorageReflectSession.cpp', 'reflector/DumbReflectSession.cpp', 'reflector/AbstractReflectSession.cpp'],
                            fn_regex=r'^muscle::(StorageReflectSession|DumbReflectSession|AbstractReflectSession)')
@@ -163,44 +205,7 @@ def run(res, tier):
                    'subtree instead of once per session' % (sorted(rv, key=str), K, depth_sn + 1, limit))
     res.ob('ONCE', cc.where(), 'both pop-up tests of CheckChildForTraversal use the same offset', len(set(Ks)) == 1, how='K = %s at %d sites' % (K, len(Ks)), function=cc.q, key='ONCE|%s|popup' % cc.q,
            message='the two pop-up tests of CheckChildForTraversal disagree')
-    # ---- MATCH-RECHECK: with more than one pattern, clause-wise matching can accept a node that no single pattern matches ("conspiring" patterns); the shortcut that skips the
-    # full-path re-check (MatchesNode) must therefore establish that there is exactly ONE pattern, not merely one pattern depth
-    mn = [c for c in P.calls(cc, r'::MatchesNode$')]
-    if not mn:
-        raise AnalysisBroken('MATCH-RECHECK: MatchesNode() call not found in CheckChildForTraversal')
-    cbs = [c for c in P.calls(cc, r'::CallCallbackMethod$')]
-    bypass_ok = True
-    howb = None
-    mnp = P.pos_of(cc, mn[0])
-    mblk = mnp[0]
-    # conditions from which the callback is reachable without evaluating MatchesNode: collect the atoms on such a path
-    for cb in cbs[:1]:
-        paths, complete = C.paths_between(cc, (cc.entry, -1), P.pos_of(cc, cb), avoid_blocks=[mblk], limit=20000)
-        inner_count_seen = False
-        for blk in cc.blocks.values():
-            if blk.cond is None or blk.cond not in cc.nodes:
-                continue
-            cn = cc.nodes[blk.cond]
-            for x in cn.walk():
-                if x['k'] == 'CXXMemberCallExpr' and (x.get('q') or '').split('::')[-1] in ('GetNumItems', 'HasItems', 'IsEmpty') and x.receiver() is not None:
-                    rt = x.receiver().type()
-                    if 'PathMatcherEntry' in rt and 'Hashtable<unsigned int' not in rt and 'Hashtable<muscle::uint32' not in rt:
-                        # a test on a per-depth table String -> PathMatcherEntry
-                        if any(blk.cond in d for d in paths):
-                            inner_count_seen = True
-        outer = False
-        for d in paths:
-            for cid, t in d.items():
-                cn = cc.nodes.get(cid)
-                if cn is not None and any(x['k'] == 'CXXMemberCallExpr' and (x.get('q') or '').endswith('::GetNumItems') and x.receiver() is not None and 'GetEntries' in x.receiver().text() for x in cn.walk()):
-                    outer = True
-        if paths and not inner_count_seen:
-            bypass_ok = False
-            howb = 'the callback is reachable without MatchesNode() on %d path(s) that test only GetEntries().GetNumItems() (number of distinct pattern depths)' % len(paths)
-    res.ob('GUARD', cc.where(mn[0]), 'the shortcut around the full-path re-check MatchesNode() requires exactly one pattern (a test on the per-depth pattern table, not only on the number of depths)', bypass_ok,
-           how=howb, function=cc.q, key='GUARD|%s|match-recheck' % cc.q,
-           message='CheckChildForTraversal skips MatchesNode() whenever GetEntries().GetNumItems() == 1, which counts distinct pattern DEPTHS: two patterns of the same depth (j*/k*, k*/j*) are matched '
-                   'clause by clause and "conspire" to select jeremy/jenny, so the Message reaches a session that owns no matching node')
+    match_recheck_rule(res, fx, 'GUARD')
     # ---- DEFAULT-ROUTE: the dispatcher selects the default route by `_parameters.HasName(PR_NAME_KEYS)`; SETPARAMETERS must therefore really store that field in _parameters
     res.rule('DEFAULT-ROUTE', 'SETPARAMETERS: a field that is copied into _parameters (msg.CopyName(fn, _parameters)) has not been moved or removed out of msg earlier on the same path; '
                               'the dispatcher uses the default route when _parameters has PR_NAME_KEYS', floor=2)
